@@ -293,7 +293,13 @@ impl Connection {
             });
         }
 
-        self.write_message(data).await
+        let result = self.write_message(data).await;
+        if matches!(result, Err(Error::Timeout(_))) {
+            // part of the frame may already be on the wire: another frame written after it
+            // would be read by the peer as the rest of this one
+            self.close().await?;
+        }
+        result
     }
 
     pub async fn receive_raw(&mut self) -> Result<Vec<u8>> {
@@ -657,13 +663,21 @@ impl Connection {
             .write_half_mut()
             .ok_or_else(|| Error::InvalidStateMessage("no active stream".to_string()))?;
 
-        tokio::time::timeout(self.config.timeout, stream.write_all(&buf))
-            .await
-            .map_err(|_| Error::Timeout(self.config.timeout))??;
+        let written = tokio::time::timeout(self.config.timeout, async {
+            stream.write_all(&buf).await?;
+            stream.flush().await
+        })
+        .await;
 
-        tokio::time::timeout(self.config.timeout, stream.flush())
-            .await
-            .map_err(|_| Error::Timeout(self.config.timeout))??;
+        match written {
+            Ok(result) => result?,
+            Err(_) => {
+                // part of the frame may already be on the wire: another frame written after it
+                // would be read by the peer as the rest of this one
+                self.close().await?;
+                return Err(Error::Timeout(self.config.timeout));
+            }
+        }
 
         trace!("Sent control message: {:?}", control);
         #[cfg(edp_rs_verif)]
